@@ -72,7 +72,7 @@ def run(ctx):
         if any(x.startswith("o:") for x in p[2:]):
             distinct.add(key)
     kinds = {k: sum(1 for l in lines if l.startswith(k + "\t")) for k in ("F", "R", "H", "S", "T", "W")}
-    hyp = {"R": 0, "S": 0}
+    hyp = {"R": 0, "S": 0, "W": 0}
     for l, r in zip(lines, res):
         if r.endswith(" H"):
             hyp[l[0]] = hyp.get(l[0], 0) + 1
@@ -80,7 +80,8 @@ def run(ctx):
     ctx.cov["distinct_nontrivial"] += len(distinct)
     ctx.notes["correspondence"] = {"cases": len(lines), "mismatches": len(mism), "distinct_cases_with_ok_outcome": len(distinct),
                                    "kinds": kinds, "exhaustive_payload_len": exh,
-                                   "cases_satisfying_theorem_hypotheses": {"C08_read_equal (R)": hyp["R"], "C08_copy_samples (S)": hyp["S"]},
+                                   "cases_satisfying_theorem_hypotheses": {"C08_read_equal (R)": hyp["R"], "C08_copy_samples (S)": hyp["S"],
+                                                                           "C08_tree_equal (W)": hyp["W"]},
                                    "panic_outcomes": sum(l.count("\tp") for l in lines),
                                    "error_outcomes": sum(l.count("\te") for l in lines)}
     rl = [l for l in lines if l.startswith("R\t")]
